@@ -416,3 +416,135 @@ Proof.
   revert H0. generalize (sm_init n). induction ops as [|o t IH]; intros s H; simpl; [exact H|].
   apply IH. apply sm_step_dealer_ok. exact H.
 Qed.
+
+(* ---------- the blinds rule (C08) ---------- *)
+Lemma pl_activate_all_inv s idxs j : pl (activate_all s idxs) j = true -> pl s j = true \/ In j idxs.
+Proof.
+  unfold activate_all. revert s; induction idxs as [|i t IH]; intros s H; simpl in *; [now left|].
+  destruct (IH _ H) as [H1|H1]; [|right; now right].
+  destruct (Nat.eq_dec i j) as [->|Hne]; [right; now left|]. left.
+  unfold pl, get_seat, upd_seat, set_seats in *. simpl in H1. rewrite nth_update_nth_other in H1 by exact Hne. exact H1.
+Qed.
+
+Lemma pl_deactivate_until_inv s idxs bb j : pl (deactivate_until s idxs bb) j = true -> pl s j = true.
+Proof.
+  revert s; induction idxs as [|i t IH]; intros s H; simpl in H; [exact H|].
+  destruct (Nat.eqb i bb); [exact H|]. apply IH in H.
+  destruct (s_occ (get_seat s i)) eqn:E; [exact H|].
+  unfold pl, get_seat, upd_seat, set_seats in *. simpl in H.
+  destruct (Nat.eq_dec i j) as [->|Hne].
+  - destruct (Nat.lt_ge_cases j (length (sm_seats s))) as [Hl|Hl].
+    + rewrite nth_update_nth_same in H by exact Hl. unfold playable, deactivate in H. simpl in H. discriminate.
+    + rewrite nth_overflow in H by (rewrite update_nth_length; exact Hl). discriminate.
+  - rewrite nth_update_nth_other in H by exact Hne. exact H.
+Qed.
+
+Lemma skipn_app_exact {A} (pre : list A) x post : skipn (length pre) (pre ++ x :: post) = x :: post.
+Proof. induction pre as [|a pre IH]; simpl; [reflexivity|exact IH]. Qed.
+
+Lemma normalized_nodup s d : NoDup (normalized s d).
+Proof. unfold normalized. apply (Permutation_NoDup (Permutation_sym (rotate_perm d _))). apply seq_NoDup. Qed.
+
+Lemma NoDup_tl {A} (l : list A) : NoDup l -> NoDup (tl l).
+Proof. destruct l; simpl; [auto|]. intros H. inversion H; assumption. Qed.
+
+Lemma NoDup_app_disj {A} (a b : list A) y : NoDup (a ++ b) -> In y a -> In y b -> False.
+Proof.
+  induction a as [|x a IH]; simpl; [intros _ []|]. intros H [->|Hy] Hb; inversion H as [|? ? Hn H']; subst.
+  - apply Hn. apply in_or_app. now right.
+  - apply IH; assumption.
+Qed.
+
+(* small blind and big blind in the state that renewSeatStatus returns *)
+Theorem renew_rule s d s' :
+  renew s d = Some s' -> pl s d = true ->
+  let rest := tl (normalized s d) in
+  (playable_count s = 2%nat /\ sm_sb s' = Some d /\
+   exists pre bb post, rest = pre ++ bb :: post /\ sm_bb s' = Some bb /\ pl s' bb = true /\ forall y, In y pre -> pl s' y = false) \/
+  (playable_count s <> 2%nat /\
+   exists pre sb mid bb post, rest = pre ++ sb :: mid ++ bb :: post /\ sm_sb s' = Some sb /\ sm_bb s' = Some bb /\
+     pl s' sb = true /\ pl s' bb = true /\ forall y, In y (pre ++ mid) -> pl s' y = false).
+Proof.
+  intros H Hd rest. pose proof (NoDup_tl _ (normalized_nodup s d)) as Hnd. fold rest in Hnd.
+  destruct (renew_positions s d s' H Hd) as (sb0 & bb0 & S1 & S2 & P1 & P2 & _ & _).
+  unfold renew in H. fold rest in H.
+  assert (G1 : forall idxs s0, sm_sb (activate_all s0 idxs) = sm_sb s0 /\ sm_bb (activate_all s0 idxs) = sm_bb s0).
+  { unfold activate_all. induction idxs as [|k t IH]; intros s0; simpl; [auto|]. destruct (IH (upd_seat s0 k activate)) as [A B]. auto. }
+  assert (G2 : forall idxs s0 b, sm_sb (deactivate_until s0 idxs b) = sm_sb s0 /\ sm_bb (deactivate_until s0 idxs b) = sm_bb s0).
+  { induction idxs as [|k t IH]; intros s0 b; simpl; [auto|]. destruct (Nat.eqb k b); [auto|].
+    destruct (s_occ _); [apply IH|]. destruct (IH (upd_seat s0 k deactivate) b) as [A B]. auto. }
+  (* a seat that was not playable and is not among the re-activated ones is still not playable *)
+  assert (Still : forall sbx bbx acts y, pl s y = false -> ~ In y acts ->
+            pl (activate_all (deactivate_until (mkSM (sm_seats s) (sm_dealer s) (Some sbx) (Some bbx)) (normalized s d) bbx) acts) y = false).
+  { intros sbx bbx acts y Hy Hn. destruct (pl (activate_all _ acts) y) eqn:E; [|reflexivity]. exfalso.
+    apply pl_activate_all_inv in E as [E|E]; [|contradiction]. apply pl_deactivate_until_inv in E.
+    unfold pl, get_seat in *. simpl in E. rewrite E in Hy. discriminate. }
+  destruct (Nat.eqb (playable_count s) 2) eqn:E2.
+  - apply Nat.eqb_eq in E2. left. split; [exact E2|].
+    change (tl (normalized s d)) with rest in H.
+    destruct (find_active s rest 0) as [[bb i]|] eqn:Eb; [|discriminate]. injection H as <-.
+    destruct (find_active_first s rest bb i Eb) as (pre & post & Er & Hl & Hp & Hb).
+    destruct (G1 (tl (skipn i rest)) (deactivate_until (mkSM (sm_seats s) (sm_dealer s) (Some d) (Some bb)) (normalized s d) bb)) as [A1 A2].
+    destruct (G2 (normalized s d) (mkSM (sm_seats s) (sm_dealer s) (Some d) (Some bb)) bb) as [B1 B2].
+    split; [rewrite A1, B1; reflexivity|]. exists pre, bb, post. split; [exact Er|]. split; [rewrite A2, B2; reflexivity|].
+    split; [apply pl_activate_all, pl_deactivate_until; exact Hp|].
+    intros y Hy. apply Still; [apply Hb; exact Hy|].
+    rewrite Er, <- Hl, skipn_app_exact. cbn [tl]. intros Hin. rewrite Er in Hnd.
+    apply (NoDup_app_disj _ _ _ Hnd Hy). now right.
+  - apply Nat.eqb_neq in E2. right. split; [exact E2|].
+    destruct (find_active s rest 0) as [[sb i]|] eqn:Es; [|discriminate].
+    destruct (find_active_first s rest sb i Es) as (pre & post1 & Er & Hl & Hps & Hbs).
+    assert (Hsk : skipn i rest = sb :: post1) by (rewrite Er, <- Hl; apply skipn_app_exact).
+    rewrite Hsk in H. cbn [tl] in H.
+    destruct (find_active s post1 0) as [[bb j]|] eqn:Eb; [|discriminate]. injection H as <-.
+    destruct (find_active_first s post1 bb j Eb) as (mid & post & Er2 & Hl2 & Hpb & Hbb).
+    assert (Hsk2 : skipn j post1 = bb :: post) by (rewrite Er2, <- Hl2; apply skipn_app_exact).
+    rewrite Hsk2. cbn [tl].
+    destruct (G1 post (deactivate_until (mkSM (sm_seats s) (sm_dealer s) (Some sb) (Some bb)) (normalized s d) bb)) as [A1 A2].
+    destruct (G2 (normalized s d) (mkSM (sm_seats s) (sm_dealer s) (Some sb) (Some bb)) bb) as [B1 B2].
+    exists pre, sb, mid, bb, post. split; [rewrite Er, Er2; reflexivity|]. split; [rewrite A1, B1; reflexivity|]. split; [rewrite A2, B2; reflexivity|].
+    split; [apply pl_activate_all, pl_deactivate_until; exact Hps|]. split; [apply pl_activate_all, pl_deactivate_until; exact Hpb|].
+    intros y Hy. apply Still.
+    + apply in_app_or in Hy as [Hy|Hy]; [apply Hbs; exact Hy|apply Hbb; exact Hy].
+    + intros Hin. rewrite Er, Er2 in Hnd.
+      (* rest = pre ++ sb :: mid ++ bb :: post has no repetition, y is in pre ++ mid and in post *)
+      assert (Hperm : Permutation (pre ++ sb :: mid ++ bb :: post) ((pre ++ mid) ++ (sb :: bb :: post))).
+      { rewrite <- app_assoc. apply Permutation_app_head. apply Permutation_middle. }
+      apply (Permutation_NoDup Hperm) in Hnd. apply (NoDup_app_disj _ _ _ Hnd Hy). right. right. exact Hin.
+Qed.
+
+(* the rule after a successful move to the next hand.  two_handed: exactly two seats could play when the
+   blinds were placed (that is, in the state right after the button has moved). *)
+Theorem sm_next_rule s s' :
+  sm_next s = (s', SOk) ->
+  exists d, sm_dealer s' = Some d /\
+    let rest := tl (normalized s' d) in
+    let two_handed := playable_count (fst (next_dealer s)) = 2%nat in
+    (two_handed /\ sm_sb s' = Some d /\
+     exists pre bb post, rest = pre ++ bb :: post /\ sm_bb s' = Some bb /\ pl s' bb = true /\ forall y, In y pre -> pl s' y = false) \/
+    (~ two_handed /\
+     exists pre sb mid bb post, rest = pre ++ sb :: mid ++ bb :: post /\ sm_sb s' = Some sb /\ sm_bb s' = Some bb /\
+       pl s' sb = true /\ pl s' bb = true /\ forall y, In y (pre ++ mid) -> pl s' y = false).
+Proof.
+  intros H. destruct (sm_next_positions s s' H) as (d & sb0 & bb0 & Hd & _).
+  unfold sm_next in H. destruct (next_dealer s) as [s1 [d1|]] eqn:E; [|discriminate].
+  destruct (next_dealer_some s s1 d1 E) as (Hp & Hlt & Hmax & Hdl).
+  destruct (Nat.ltb (playable_count s1) 2); [discriminate|].
+  destruct (renew s1 d1) as [s2|] eqn:Er; [|discriminate]. injection H as <-.
+  assert (Hm2 : sm_max s2 = sm_max s1).
+  { pose proof (renew_occ s1 d1 s2 Er) as Ho. unfold sm_max. rewrite <- (map_length s_occ (sm_seats s2)), Ho, map_length. reflexivity. }
+  (* renew keeps the dealer *)
+  assert (Hd2 : sm_dealer s2 = Some d1).
+  { pose proof Er as Er'. unfold renew in Er'.
+    destruct (if Nat.eqb (playable_count s1) 2 then _ else _) as [[sbx seats]|]; [|discriminate].
+    destruct (find_active s1 (tl seats) 0) as [[bbx i]|]; [|discriminate]. injection Er' as <-.
+    assert (G1 : forall idxs s0, sm_dealer (activate_all s0 idxs) = sm_dealer s0).
+    { unfold activate_all. induction idxs as [|k t IH]; intros s0; simpl; [reflexivity|]. rewrite IH. reflexivity. }
+    assert (G2 : forall idxs s0 b, sm_dealer (deactivate_until s0 idxs b) = sm_dealer s0).
+    { induction idxs as [|k t IH]; intros s0 b; simpl; [reflexivity|]. destruct (Nat.eqb k b); [reflexivity|].
+      rewrite IH. destruct (s_occ _); reflexivity. }
+    rewrite G1, G2. simpl. exact Hdl. }
+  exists d1. split; [exact Hd2|]. cbn [fst].
+  assert (Hn : normalized s2 d1 = normalized s1 d1) by (unfold normalized; rewrite Hm2; reflexivity).
+  rewrite Hn. apply (renew_rule s1 d1 s2 Er Hp).
+Qed.
